@@ -237,3 +237,29 @@ Proof.
     unfold jvp_helper, msym, mmul, mtr, mid, sum3, h_matrix; cbn [Nat.eqb];
     cbv beta iota zeta delta [nunit nzero nhalf nZ]; unfold_num; q2r; field.
 Qed.
+
+(* non-vacuity of the hypotheses used above *)
+Lemma c10_nonvacuous :
+  (0 < 1 /\ 0 < 102 / 100 /\ 1 <> 102 / 100 /\ Rabs (1 - 102 / 100) <= 5 / 100 * Rmin 1 (102 / 100))
+  /\ (exists (phi : R -> R -> R) (y : R -> R) x0 a b dy,
+        filterdiff (fun xy : R * R => phi (fst xy) (snd xy)) (locally (x0, y x0)) (fun h => a * fst h + b * snd h)
+        /\ is_derive y x0 dy /\ b = 0 /\ dy <> 0).
+Proof.
+  split.
+  - repeat split; try lra. unfold Rmin. destruct (Rle_dec 1 (102 / 100)); unfold Rabs; destruct (Rcase_abs (1 - 102 / 100)); lra.
+  - (* phi(x, y) = x + (y - x)^2 is stationary in y along y(x) = x, which moves with x *)
+    exists (fun x y => x + (y - x) * (y - x)), (fun x => x), 0, 1, 0, 1.
+    split; [|split; [|split; [reflexivity|lra]]].
+    + apply filterdiff_ext_lin with (fun h : R * R => fst h + ((snd h - fst h) * (0 - 0) + (0 - 0) * (snd h - fst h))).
+      * apply (filterdiff_plus_fct (F := locally (0, 0)) (fun xy : R * R => fst xy) (fun xy : R * R => (snd xy - fst xy) * (snd xy - fst xy))).
+        -- apply filterdiff_linear. apply is_linear_fst.
+        -- apply (filterdiff_mult_fct (fun xy : R * R => snd xy - fst xy) (fun xy : R * R => snd xy - fst xy) (0, 0)
+                    (fun h : R * R => snd h - fst h) (fun h : R * R => snd h - fst h)).
+           ++ apply Rmult_comm.
+           ++ apply (filterdiff_minus_fct (F := locally (0, 0)) (fun xy : R * R => snd xy) (fun xy : R * R => fst xy));
+                apply filterdiff_linear; [apply is_linear_snd|apply is_linear_fst].
+           ++ apply (filterdiff_minus_fct (F := locally (0, 0)) (fun xy : R * R => snd xy) (fun xy : R * R => fst xy));
+                apply filterdiff_linear; [apply is_linear_snd|apply is_linear_fst].
+      * intros [h1 h2]. simpl. unfold plus, mult, minus, opp, scal; simpl. unfold mult; simpl. ring.
+    + apply (is_derive_id (K := R_AbsRing)).
+Qed.
